@@ -2,6 +2,7 @@ import SqlObjVerif.Lemmas.DdlCols
 import SqlObjVerif.Lemmas.DdlCat
 import SqlObjVerif.Lemmas.DdlStyle
 import SqlObjVerif.Lemmas.DdlFlags
+import SqlObjVerif.Lemmas.DdlXCreate
 /-!
 # C14 — the generated schema matches the class declaration, in every dialect
 
@@ -198,5 +199,105 @@ theorem C14_style_db_names_are_identifiers {s : List Nat} (hs : ∀ c ∈ s, isI
 example : fragCheck false [39, 97, 44, 32, 78, 79, 84, 32, 78, 85, 76, 76, 39] = some [.str] := by decide
 example : (fragCheck true Extracted.tables.kwNotNull) = some [.w kwNOT, .w kwNULL] := by decide +kernel
 example : createsLink [65] [66] = true ∧ createsLink [66] [65] = false := by decide
+
+/-! ### The TRANSLATED source
+
+`vlib/extractors/pyddl.py` translates the Python AST of the renderers into the PyDdl program
+`SqlObjVerif.PyDdl.Extracted.prog` on every run; `callN prog ddlI n` runs it (call depth `n`) on the image of the
+declaration (`Model/DdlX.lean`, interface assumptions in its header).  The theorems below say that the translated
+functions compute the pieces of the hand model `Model/Ddl.lean` — for ALL declarations, dialects, capability
+records, styles and every sufficiently large call depth — and restate the text-level property about the
+translated `DBAPI.createColumns`. -/
+
+section Translated
+open SqlObjVerif.DdlX
+open SqlObjVerif.PyDdl (callN R Val Callee)
+open SqlObjVerif.PyDdl.Extracted (prog M__extraSQL M_createColumn M_createIDColumn M_joinSQLType
+  M__SO_createJoinTableSQL M_createColumns)
+
+/-- `SOCol._extraSQL` = `extraPieces` (NOT NULL / UNIQUE / DEFAULT in source order) on every column class -/
+theorem C14_translated_extraSQL_eq_model (n : Nat) (st : Style) (tb : Str) (c0 : Val) (col : Col) :
+    callN prog ddlI (n + 1) (.meth (clsOf col.kind) M__extraSQL) [colV Extracted.tables st tb c0 col] =
+      .ok (strList (extraPieces Extracted.tables col)) :=
+  extraSQL_call n _ st tb c0 col (resolve_extraSQL col.kind)
+
+/-- `col.<dialect>CreateSQL(…)` — dispatched through col.py's class hierarchy to `SOCol` / `SOForeignKey`, with the
+    `_<dialect>Type` / `_sqlType` / `_checkType` / `addSQLAttrs` / `_extraSQL` methods it calls — = `colText`: the same
+    text, or both refuse (EnumCol on MaxDB, EnumCol without values) -/
+theorem C14_translated_colCreateSQL_eq_model (n : Nat) (st : Style) (tb : Str) (c0 : Val) (col : Col) (d : Dialect)
+    (c : Caps) :
+    agrees (callN prog ddlI (n + 5) (.meth (clsOf col.kind) (csM d)) (colV Extracted.tables st tb c0 col :: csArgs d c))
+      (colText Extracted.tables d c st col) :=
+  col_createSQL n st tb c0 col d c
+
+/-- `<Connection>.createColumn(soClass, col)` of the seven connection classes = `colText` -/
+theorem C14_translated_createColumn_eq_model (n : Nat) (st : Style) (tb : Str) (c0 sv : Val) (col : Col) (d : Dialect)
+    (c : Caps) :
+    agrees (callN prog ddlI (n + 6) (.meth (connCls d) M_createColumn) [connV d c, sv, colV Extracted.tables st tb c0 col])
+      (colText Extracted.tables d c st col) := by
+  rw [createColumn_fwd (n + 5)]; exact col_createSQL n st tb c0 col d c
+
+/-- `createIDColumn` (`_createIDColumn` on SQLite) of the seven connection classes = `idText` -/
+theorem C14_translated_createIDColumn_eq_model (n : Nat) (d : Dialect) (c : Caps) (decl : Decl) (c0 : Val) :
+    callN prog ddlI (n + 2) (.meth (connCls d) M_createIDColumn) [connV d c, soClassV decl c0] =
+      resS (idText Extracted.tables d decl) :=
+  createIDColumn_eq n d c decl c0
+
+theorem C14_translated_joinSQLType_eq_model (n : Nat) (d : Dialect) (c : Caps) (j : Val) :
+    callN prog ddlI (n + 1) (.meth (connCls d) M_joinSQLType) [connV d c, j] = .ok (.str (Extracted.tables.joinType d)) :=
+  joinSQLType_eq n d c j
+
+/-- `_SO_createJoinTableSQL` = `joinTableSQL` -/
+theorem C14_translated_createJoinTableSQL_eq_model (n : Nat) (d : Dialect) (c : Caps) (j : Join) :
+    callN prog ddlI (n + 2) (.meth (connCls d) M__SO_createJoinTableSQL) [connV d c, joinV j] =
+      .ok (.str (joinTableSQL Extracted.tables d j)) :=
+  createJoinTableSQL_eq n d c j
+
+/-- `DBAPI.createColumns` (the id column, the comprehension over `columnList`, the indentation and `",\n".join`)
+    = the body of the hand model's CREATE TABLE text; a column that refuses makes the whole call raise -/
+theorem C14_translated_createColumns_eq_model (n : Nat) (d : Dialect) (c : Caps) (decl : Decl) (c0 : Val) :
+    agrees (callN prog ddlI (n + 8) (.meth (connCls d) M_createColumns) [connV d c, soClassV decl c0])
+      (colsModel d c decl) :=
+  createColumns_agrees n d c decl c0
+
+/-- the hand model's CREATE TABLE text is the extracted frame around that body -/
+theorem C14_createTableSQL_is_frame_around_columns (d : Dialect) (c : Caps) (decl : Decl) :
+    createTableSQL Extracted.tables d c decl = (colsModel d c decl).map fun b =>
+      Extracted.tables.createTable.1 ++ decl.tableName ++ Extracted.tables.createTable.2.1 ++ b ++
+        Extracted.tables.createTable.2.2 :=
+  createTableSQL_eq_colsModel d c decl
+
+/-- **C14 about the translated source.**  Whatever body the TRANSLATED `DBAPI.createColumns` returns for a
+    well-formed declaration, the skeleton read from the CREATE TABLE statement around it is the key column followed
+    by the declared columns, in order, with the declared db names and NOT NULL / UNIQUE flags. -/
+theorem C14_translated_skeleton_eq_declaration (n : Nat) (d : Dialect) (c : Caps) (bs : Bool) (decl : Decl) (c0 : Val)
+    (hbs : bsOK bs (litDb Extracted.tables d)) (hwf : declWF bs decl = true) (body : Str)
+    (h : callN prog ddlI (n + 8) (.meth (connCls d) M_createColumns) [connV d c, soClassV decl c0] = .ok (.str body)) :
+    skeleton bs (Extracted.tables.createTable.1 ++ decl.tableName ++ Extracted.tables.createTable.2.1 ++ body ++
+        Extracted.tables.createTable.2.2) =
+      idSkel d decl :: decl.cols.map (skelOf decl.style) := by
+  have ha := createColumns_agrees n d c decl c0
+  cases hm : colsModel d c decl with
+  | none =>
+    rw [hm] at ha
+    obtain ⟨e, he⟩ := ha
+    rw [he] at h; cases h
+  | some b =>
+    rw [hm] at ha
+    simp only [agrees] at ha
+    rw [ha] at h
+    injection h with h; injection h with h; subst h
+    apply C14_skeleton_eq_declaration d c bs decl hbs hwf
+    rw [createTableSQL_eq_colsModel, hm]; rfl
+
+/-- non-vacuity: the translated program really renders a two-column table on MySQL with microsecond support -/
+example : callN prog ddlI 8 (.meth (connCls .mysql) M_createColumns)
+    [connV .mysql ⟨true, false⟩, soClassV ⟨[80], .under, false, none, none, false, .none,
+      [⟨[97], none, .simple .dateTime, true, none, false, none⟩,
+       ⟨[98], none, .enum [some [120], none], false, none, false, none⟩], [], []⟩ .none] =
+    .ok (.str (lit "    id INT PRIMARY KEY AUTO_INCREMENT,\n    a DATETIME(6) NOT NULL,\n    b ENUM('x')")) := by
+  rfl
+
+end Translated
 
 end SqlObjVerif.Ddl
